@@ -8,7 +8,9 @@
 (*        of every grid (xs), what the model returned for every grid (ys,  *)
 (*        exact values of the floats), its mask / labels, the polynomial's *)
 (*        coefficients per entry (coef), a permutation (perm) under which  *)
-(*        the call was repeated;                                           *)
+(*        the call was repeated; for real dadi models (phi_1D sampled by   *)
+(*        Spectrum.from_phi) xs is the extrap_x found on the results and   *)
+(*        grid1 the first interior point of the grid used;                 *)
 (*   out: the raw result (v, m, ids), the result of the permuted call      *)
 (*        (alt), the argument tuples the model was called with (calls); or *)
 (*        raised / list (no_extrap);                                       *)
@@ -92,6 +94,8 @@ ValueClauses(r) ==
         ELSE F("Labels", r.out.ids = r.in.ids) \cup
              F("Unmasked", \A e \in 1..n : ~r.in.mask[e] => ~r.out.m[e]) \cup
              F("ArgsPassed", Len(r.out.calls) = k /\ ToSet(r.out.calls) = expectedCalls) \cup
+             \* real models: the x used is the extrap_x Spectrum.from_phi recorded = first interior grid point
+             (IF Has(r.in, "grid1") THEN F("ExtrapXFromGrid", r.in.xs = r.in.grid1) ELSE {}) \cup
              UNION {IF r.in.mask[e] \/ r.out.m[e] THEN {} ELSE IF r.in.log THEN LogEntry(r, w, e) ELSE LinEntry(r, w, e) : e \in 1..n}
 
 FExtrap(r) ==
